@@ -63,15 +63,9 @@ func c13(c *q.Ctx) {
 		c.Effect(gu, q.Eff{Spec: "append", Arg: 1, Glob: "[tx.(*Tx).SortUnconfirmedTx(p0)#0[tx.TopSortDFS(tx.(*Tx).SortUnconfirmedTx(p0)#1)#0[]]]", Why: "transactions are emitted in that order", Rule: "K2"})
 		c.Gate(gu, "Tx.SortUnconfirmedTx", q.ToSuccess(), q.Opt{})
 	}
+	poolGraph(c)
 	su := c.Fn(txp + "(*Tx).SortUnconfirmedTx")
 	if su != nil {
-		keep := func(g q.Cond) bool { return !strings.Contains(g.Canon, "more(") && !strings.Contains(g.Canon, "len(") }
-		m := "newmap<map[string]*Transaction>"
-		for _, f := range []string{"TxInputs", "TxInputsExt"} {
-			c.Effect(su, q.Eff{Spec: "append", Arg: 0, Glob: "newmap<TxGraph>[" + m + "[]." + f + "[].RefTxid]", Req: []q.Cond{{Canon: "has(" + m + "," + m + "[]." + f + "[].RefTxid)", Sense: true}}, Exact: true, Keep: keep, Why: "an edge from every pending producer cited by " + f + " to the consumer", Rule: "K4"})
-			c.Effect(su, q.Eff{Spec: "append", Arg: 1, Glob: "[key(" + m + ")]", Why: "the consumer is the transaction whose inputs are scanned", Rule: "K4"})
-			c.StaysInLoop(su, q.Cond{Canon: "has(" + m + "," + m + "[]." + f + "[].RefTxid)", Sense: false}, q.Cond{Canon: "(#i < len(" + m + "[]." + f + "))"}, "an input citing a confirmed transaction must not hide the later inputs")
-		}
 		// information necessity: anti-dependencies need the write sets
 		reads := false
 		for _, r := range c.FieldRefs("Transaction.TxOutputsExt") {
